@@ -50,14 +50,14 @@ def cases(tier, rng):
     sf = enum.signed_fused_programs()
     for p in sf:
         out.append(("signed-fused", p))
-    n = 1500 if tier == "quick" else 8000
+    n = 1500 if tier == "quick" else 20000
     for _ in range(n):
         src, _ = gen.random_program(rng.fork())
         out.append(("random", src))
-    for _ in range(600 if tier == "quick" else 3000):
+    for _ in range(600 if tier == "quick" else 8000):
         out.append(("fragment", frag_program(rng.fork())))
     # layout never matters: the same programs with comments (ASCII and multi-byte text) and blank lines woven in
-    for label, src in [c for c in out if c[0] == "random"][: (300 if tier == "quick" else 1500)]:
+    for label, src in [c for c in out if c[0] == "random"][: (300 if tier == "quick" else 4000)]:
         out.append(("random-commented", decorate(rng, src)))
     from .. import gen2
     from . import C03
@@ -67,7 +67,7 @@ def cases(tier, rng):
     out += [("stale-slots", p) for p in gen2.stale_slot_programs()]
     ts = gen2.tail_shape_programs()
     out += [("tail-shapes", p) for p in (ts[rng.below(3)::3] if tier == "quick" else ts)]
-    for _ in range(150 if tier == "quick" else 800):
+    for _ in range(150 if tier == "quick" else 2000):
         out.append(("fn-values", gen2.fnvalue_program(rng.fork())))
         out.append(("nested-fn", gen2.nested_fn_program(rng.fork())))
         out.append(("heap-shapes", C03.heap_program(rng.fork())))
